@@ -207,7 +207,14 @@ class M:
             return None
         old = self.one(voc)
         same_arity = [n for n, a in voc if a == old[1] and n != old[0]]
-        new = self.one(same_arity) if same_arity and self.i(0, 9) < 6 else self.one(NGO_NAMES)
+        other_arity = [n for n, a in voc if a != old[1] and n != old[0]]
+        k = self.i(0, 9)
+        if same_arity and k < 5:
+            new = self.one(same_arity)
+        elif other_arity and k < 8:
+            new = self.one(other_arity)  # same name, different arity: p/2 next to p/3
+        else:
+            new = self.one(NGO_NAMES)
 
         def fn(node: AST) -> Optional[AST]:
             if node.ast_type == ASTType.SymbolicAtom and node.symbol.ast_type == ASTType.Function:
